@@ -267,6 +267,15 @@ def run(ctx: Ctx) -> None:
                    msg=f"current_location() is read and {bad[:1]} is delivered without any token being consumed in between: the location is that of the token after the declaration",
                    node=n.stmt, mod=mod)
 
+    # ---------------------------------------------------------------- R10.9 / R10.10
+    # "error messages begin with the file and line of the failing token": the handler's message text is C06's R6.1m;
+    # "each callback reports its own line": a location parked on the parser for a later declaration to pick up outlives
+    # the declaration it belongs to -- C12's OWN rule R12.1 (which attributes the parser may carry between declarations).
+    if not isinstance(ctx, SubCtx):
+        from . import c06 as _c06, c12 as _c12
+        run_shared(ctx, _c06.run, {"R6.1m": ("R10.9", "error message: file name, then the line of the token the error is about")})
+        run_shared(ctx, _c12.run, {"R12.1": ("R10.10", "nothing is carried on the parser from one declaration to the next (a parked location would be reported for a later declaration)")})
+
     # ---------------------------------------------------------------- R10.8
     # "the real ones": the lexer counts "\n"; what the text goes through before it is lexed must not change how many line
     # ends a line has (CRLF turned into two line ends counts every line twice).  C09's carriage-return rule R9.5,
